@@ -124,6 +124,8 @@ pub fn hmode_strategy() -> impl Strategy<Value = HMode> {
         2 => Just(HMode::SameBin),
         1 => Just(HMode::Mod4),
         2 => Just(HMode::Mix),
+        2 => Just(HMode::PairBin),
+        1 => Just(HMode::FewHigh),
     ]
 }
 
